@@ -387,6 +387,15 @@ impl Exec {
 		id
 	}
 
+	/// make room for lock ids below `n` (locks made while a case runs)
+	pub fn ensure_locks(&self, n: usize) {
+		let mut g = self.lock();
+		if n > g.locks.len() {
+			g.locks.resize(n, LockState::default());
+			g.group_of.resize(n, u32::MAX);
+		}
+	}
+
 	pub fn frame_label(&self, frame: u32) -> String {
 		let g = self.lock();
 		if frame == 0 {
